@@ -122,7 +122,7 @@ impl Property for C05 {
         let Some(tc) = load_wellformed(&mut out, "c05", &text, &built.sigs) else {
             return out;
         };
-        let real = run_real(&tc, &built.sigs, &spec, &RunOpts { max_next: next_budget(&t), ..Default::default() });
+        let real = run_real(&tc, &built.sigs, &spec, &RunOpts { max_next: next_budget(&t), fuel: fuel_for(t.facts.steps), ..Default::default() });
         if let Some((k, m)) = trace_diff(&t, &real, Projection::INPUTS_EXPECTED) {
             let key = if k.starts_with("panic:") { k } else { format!("c05:{k}") };
             out.fail(key, m);
